@@ -33,7 +33,9 @@ def native_concat(values: t.Iterable[t.Any]) -> t.Any | None:
             return raw
     else:
         if isinstance(values, GeneratorType):
-            values = chain(head, values)
+            # Run the generator to its end before any value is converted,
+            # the way async rendering and macro buffers collect their output.
+            values = list(chain(head, values))
         raw = "".join([str(v) for v in values])
 
     try:
